@@ -85,3 +85,17 @@ Theorem C13_indices_inside_codeword :
   forall n sq idx, indices_of n sq = Ok idx -> length idx = length sq /\ Forall (fun i => (i < n)%N) idx.
 Proof. exact @indices_of_spec. Qed.
 Print Assumptions C13_indices_inside_codeword.
+
+(* the width of the squeezed blocks: get_num_bytes n bytes reach every position of a codeword of length n, while a block that is
+   too narrow (256^k < n) only ever yields positions below 256^k - the columns from 256^k on would never be opened *)
+From PC Require Import Proofs.IndexWidth.
+Theorem C13_get_num_bytes_covers : forall n : N, (n <= 256 ^ get_num_bytes n)%N.
+Proof. exact get_num_bytes_covers. Qed.
+Print Assumptions C13_get_num_bytes_covers.
+
+Theorem C13_narrow_block_misses_positions :
+  forall (n : N) (bytes : list N) (i : N),
+    Forall (fun x => (x < 256)%N) bytes -> (256 ^ N.of_nat (length bytes) < n)%N ->
+    index_of_bytes n bytes = Ok i -> (i < 256 ^ N.of_nat (length bytes))%N.
+Proof. exact narrow_block_misses_positions. Qed.
+Print Assumptions C13_narrow_block_misses_positions.
